@@ -56,4 +56,24 @@ PROPS = {
             'scalar-factor tables keyed by Expr (FxHashMap, no specification)',
         ],
     },
+    'C15': {
+        'level': 'proof',
+        'level_text': 'machine-checked contracts (Verus) on the extracted real text of gate.rs and circuit.rs: Gate::adjoint against the inverse-gate table and involution, Circuit::adjoint = reverse then adjoint each gate, double reverse/adjoint = identity, push_basic_gates/to_basic_gates produce exactly num_basic_gates() gates in the standard recipes (CCZ recipe proved equal to CCZ on every computational basis state), all basic and on the gate\'s own qubits, +/+= concatenate, CircuitStats partitions the gates; for circuits of any length and parity-phase gates of any arity',
+        'level_note': 'assumed: derived Clone of Gate/Circuit/Parity is structural; VecDeque make_contiguous().reverse(), extend(iter().cloned()) and IterMut order (stubs/rewrites R6, R11); gate matrices in the computational basis (CNOT, T, Tdg, CCZ) and Toffoli = H CCZ H, parity-phase = CNOT ladder are textbook facts; Phase contracts are re-verified in the same file (unit phase included)',
+        'technique': 'Verus contracts with loop invariants on mechanically extracted functions of gate.rs/circuit.rs, plus a symbolic-execution lemma for the CCZ recipe',
+        'verus': ['circuit'],
+        'assumptions': [
+            '#[derive(Clone)] on Gate, Circuit, Parity produces structurally equal values (stub Clone impls)',
+            'VecDeque::make_contiguous().reverse() reverses the deque; VecDeque::extend(iter().cloned()) appends clones in order; `for g in &mut deque` visits slots 0..len in order (stubs vecdeque_reverse / vecdeque_extend_cloned, rewrite R11)',
+            'textbook gate semantics: CNOT(c,t)|x> = |x, x_t ^= x_c>, T|x> = w^{x_q}|x>, Tdg = T^-1, CCZ|x> = w^{4 x0 x1 x2}|x>; Toffoli = H_t CCZ H_t; parity-phase gadget = CNOT ladder + Z-phase + ladder undone; inverse of each single gate kind as in is_adjoint_of',
+            'the capacity hint `iter().map(num_basic_gates).sum()` is replaced by an unspecified usize (only passed to VecDeque::with_capacity)',
+            'everything assumed by unit phase (C16) for num::Ratio',
+        ],
+        'supported_range': ['2 * qs.len() <= usize::MAX', 'phases with 2*denominator <= i64::MAX for adjoint (the *= -1 renormalises)', 'CCZ/TOFF gates have at least 3 qubit arguments (otherwise the code panics on qs[2]: precondition, reported)'],
+        'not_covered': [
+            '"appending the adjoint gives the identity map" beyond the per-gate inverse table (matrix semantics of H/X-phase mixtures is not modelled)',
+            'parity-phase ladder and Toffoli are pinned structurally to the standard recipe, their unitary semantics is the stated textbook fact',
+            'Circuit += with different qubit counts is accepted by the code (no check, unlike +): recorded, not a violation of the statement',
+        ],
+    },
 }
